@@ -6,7 +6,8 @@ C19 — panic-explicit models of the two `Range` code paths.
 (A) `actix-web/src/http/header/range.rs`: `Range::from_str`, `ByteRangeSpec::from_str`,
     `from_comma_delimited`, and `ByteRangeSpec::to_satisfiable_range` (the `full_length - 1`,
     `full_length - last` subtractions).
-(B) `actix-files/src/named.rs:548–563` (`offset + length - 1`) on top of the `http-range 0.1.5`
+(B) `actix-files/src/named.rs:549–567` (`offset + length - 1`, after the fix that answers a
+    zero-length range with 416) on top of the `http-range 0.1.5`
     crate's `HttpRange::parse_bytes` / `parse_single_range` (`size - length`, `size - start`,
     `size - 1`, `end - start + 1`), all on `u64`.
 
@@ -209,7 +210,7 @@ def fileRange (header : List Nat) (size : Nat) : Outcome FileResp :=
       match parseBytes header size with
       | .panic s => .panic s
       | .err _ => .ok none
-      | .ok rs => .ok rs.head?
+      | .ok rs => .ok (rs.head?.filter fun r => r.length > 0)   -- named.rs:557 `.filter(|range| range.length > 0)`
     match first with
     | .panic s => .panic s
     | .err e => .err e
